@@ -1528,7 +1528,7 @@ MUTANTS += [
     ("C19", _PSP, r"        self\.distributions\[name\] = joint_distribution_class\(marginals\)", "        self.distributions[name] = joint_distribution_class(marginals[:1])"),
     ("C19", _PSP, r"            name,\n            distribution,\n            size,\n            \*\*kwargs,", "            name,\n            distribution,\n            1,\n            **kwargs,"),
     ("C19", _PSP, r"            name,\n            distribution,\n            size,\n            \*\*kwargs,", "            name,\n            name,\n            size,\n            **kwargs,"),
-    ("C19", _PSP, r"            if self\.uncertain_variables:\n                self\.build_joint_distribution\(\)\n        super\(\)\.remove_variable\(name\)", "        super().remove_variable(name)"),
+    ("C19", _PSP, r"            if self\.uncertain_variables:\n                self\.build_joint_distribution\(\)\n            else:\n                self\.distribution = None\n", "            self.distribution = None\n"),
     ("C19", _PSP, r"data_array, self\.variable_sizes, self\.uncertain_variables", "data_array, self.variable_sizes, list(self._variables)"),
     ("C19", _PSP, r"sample = self\.distribution\.compute_samples\(n_samples\)", "sample = self.distribution.compute_samples(n_samples + 1)"),
 ]
@@ -1575,4 +1575,19 @@ MUTANTS += [
      "            self.uncertain_variables.remove(current_name)\n            self.uncertain_variables.append(new_name)"),
     ("C19", _PSP, r"            dict_ = self\.distributions\n            dict_\[new_name\] = dict_\.pop\(current_name\)", "            dict_ = self.distributions"),
     ("C19", _PSP, r"            self\.uncertain_variables\[position\] = new_name", "            self.uncertain_variables[0] = new_name"),
+]
+
+# ---- C19: revert of the repair 910a44a (joint distribution reset when the last uncertain variable is removed)
+MUTANTS += [
+    ("C19", _PSP, r"                self\.build_joint_distribution\(\)\n            else:\n                self\.distribution = None\n", "                self.build_joint_distribution()\n"),
+    ("C19", _PSP, r"            else:\n                self\.distribution = None\n        super\(\)\.remove_variable", "            else:\n                self.distribution = self.distribution\n        super().remove_variable"),
+]
+
+MUTANTS += [
+    # ---- C06 INITIAL_SUBRESIDUAL_NORM row of the scaling table (one (slice, reference) pair per resolved variable; max over all of them)
+    ("C06", "mda/base_mda_solver.py", r"initial_norm = initial_norm if initial_norm != 0.0 else 1.0\n                        scaling_data", 'initial_norm = initial_norm if initial_norm != 0.0 else 0.0\n                        scaling_data'),
+    ("C06", "mda/base_mda_solver.py", r"            normed_residual = max\(normalized_norms\)", '            normed_residual = normalized_norms[0]'),
+    ("C06", "mda/base_mda_solver.py", r"                normalized_norms.append\(norm\(residual\[current_slice\]\) / initial_norm\)", '                normalized_norms.append(norm(residual[current_slice]))'),
+    ("C06", "mda/base_mda_solver.py", r"                        initial_norm = float\(norm\(residual\[slice_\]\)\)", '                        initial_norm = float(norm(residual))'),
+    ("C06", "mda/base_mda_solver.py", r"                        initial_norm = initial_norm if initial_norm != 0.0 else 1.0\n", '                        if initial_norm == 0.0:\n                            continue\n'),
 ]
